@@ -230,7 +230,7 @@ def run(chk, gate, status):
     model, errors = common.coq_eval('C16', 'Base Lifecycle', terms, chunk=600)
     # state before the last call: replay prefixes on the implementation once per distinct path
     before_cache = {}
-    ndis = nfail = 0
+    ndis = nfail = physical = 0
     dist = {}
     samples = []
     for idx, ((path, c, out, after, bk), m) in enumerate(zip(cases, model)):
@@ -275,6 +275,12 @@ def run(chk, gate, status):
             ndis += 1
             continue
         mo, ms = dm[-1]
+        if c[0] == 'bake' and mo[0] == 'ok' and out[0] == 'exc' and out[1] != 'RuntimeError' and 'declared as used' not in str(out[2]) and after == before_cache[path][0]:
+            # a recorded step cannot be performed (a second dilution to a concentration already reached, a dilution of an object whose
+            # name a later create_solution re-bound ...): bake raises for a reason the lifecycle automaton does not model, and leaves
+            # the recipe unbaked and unchanged.  Counted, not compared; that steps are performed faithfully is C08's subject.
+            physical += 1
+            continue
         agree = (mo[0] == out[0]) and (mo[0] == 'ok' or (mo[1] == out[1] if mo[1] != 'Other' else out[1] not in ('ValueError', 'TypeError', 'RuntimeError'))) and ms == after
         if not agree:
             ndis += 1
@@ -290,7 +296,7 @@ def run(chk, gate, status):
                         "dilute(..., new_name=...) is in the alphabet for its lifecycle effect only; its effect on the tracking queries is known finding D31 (C09/C15)"]
     return {'evaluations': len(cases), 'programs': len(cases), 'distinct_nontrivial': len({(p, c) for p, c, *_ in cases}), 'rule': RULE,
             'exhaustive': True, 'exhaustive_bound': f"all {len(ALPHABET)} calls from all {nstates} lifecycle states reachable in <= {depth} calls",
-            'states': nstates, 'disagreements_checked': ndis, 'oracle_failures': nfail, 'samples': samples,
+            'states': nstates, 'bake_refused_for_an_infeasible_step_not_compared': physical, 'disagreements_checked': ndis, 'oracle_failures': nfail, 'samples': samples,
             'generator_distribution': dist, 'translator_status': status.get('LifecycleGen'), 'symbolic_extraction_status': status.get('LifecycleSym'), 'tie_used': (status.get('tie') or {}).get('LifecycleTie')}
 
 
